@@ -245,6 +245,20 @@ let with_schema (case : string) (f : ctx -> string -> 'a) : 'a =
 let first_word (r : string) : string = match words r with w :: _ -> w | [] -> ""
 let oracle (r : string) : bool = c03_ok (obs_of_word (nlist_of_string (first_word r)))
 
+(* SEQ cases: besides OK/EXC, what the answer mentions must come from the input (Spec_C03) *)
+let oracle_seq (case : string) (r : string) : bool =
+  oracle r &&
+  (match words case with
+   | ["SEQ"; _; _; hx] ->
+       let input = nlist_of_hex hx in
+       (match words r with
+        | "EXC" :: "InvalidMessage" :: [a] when String.length a > 4 && String.sub a 0 4 = "arg=" ->
+            c03_seq_exc_ok input (nlist_of_hex (String.sub a 4 (String.length a - 4)))
+        | "OK" :: t :: _ when String.length t > 2 && String.sub t 0 2 = "T=" ->
+            c03_seq_msg_ok input (nlist_of_string (String.sub t 2 (String.length t - 2)))
+        | _ -> true)
+   | _ -> true)
+
 let string_of_dclass (c : ctx) (d : dclass) : string =
   match d with
   | DOk m -> "OK " ^ dump_msg c m
@@ -279,6 +293,22 @@ let c03_run (c : ctx) (case : string) : string =
         (* the same input on the build WITHOUT sanitizers: fast_atoi<int> wraps, no UB class *)
         let (perm, nock) = parse_mode mode in
         string_of_dclass c (dec_class_gen false c (nlist_of_hex hx) nock perm)
+    | ["SEQ"; mode; _prime; hx] ->
+        (* factory is a function of its input: whatever was decoded before / lies on the stack is
+           ignored.  InvalidMessage carries the text the C++ puts into it: the whole input when the
+           header or the trailer is rejected, the MsgType text when the type is unknown *)
+        let (perm, nock) = parse_mode mode in
+        let bytes = nlist_of_hex hx in
+        (match dec_class c bytes nock perm with
+         | DExc EInvalidMessage ->
+             let arg =
+               (match extract_header bytes real_caps.cap_htag real_caps.cap_hval real_caps.cap_len real_caps.cap_mtype with
+                | Ok ((hlen, _), mtype) ->
+                    if int_of_n hlen = 0 then bytes
+                    else (match find_msg c.c_msgs (cstr mtype) with None -> cstr mtype | Some _ -> bytes)
+                | _ -> bytes) in
+             "EXC InvalidMessage arg=" ^ hex_of_nlist (cstr arg)
+         | d -> string_of_dclass c d)
     | ["ENC"; spec] -> string_of_eclass (enc_class c (build_msg c spec))
     | ["REENC"; mode; hx] ->
         let (perm, nock) = parse_mode mode in
@@ -319,4 +349,4 @@ let () = run_protocol (fun case0 impl -> with_schema case0 (fun c case ->
   else if not (schema_wf c) then ("MODEL-ERROR schema violates c03_wf", oracle impl, false)
   else
     let m = c03_run c case in
-    (m, oracle impl, oracle m)))
+    (m, oracle_seq case impl, oracle_seq case m)))
